@@ -318,8 +318,7 @@ class YP(object):
 
     def findall(self, template, goal, bag):
         '''findall/3 returns values according to template into bag, that satisfy goal.'''
-        # assumes goal is instantiated
-        q = self.query(goal._name,goal._args)
+        q = self.call(goal)
         results = self.makelist([ get_value(template) for r in q ])
         for y in unify(bag, results):
             yield False
@@ -331,17 +330,17 @@ class YP(object):
             goal_name = to_python(goal_value)
             goal_args = []
         elif isinstance(goal_value, Functor):
-            goal_name = goal._name
-            goal_args = goal._args
+            goal_name = goal_value._name
+            goal_args = goal_value._args
         else:
-            # TODO: raise exception
-            pass
+            raise YPException('call: callable term expected')
         yield from self.query(goal_name, goal_args + list(args))
 
     def once(self, goal):
         '''once/1 calls goal only once.'''
-        q = self.call(goal)
-        yield next(q)
+        for r in self.call(goal):
+            yield r
+            return
 
     def asserta(self, term):
         '''asserta(Term) adds Term to the facts database at the beginning.'''
